@@ -1,27 +1,842 @@
-//! C15 — not built yet (stub so that the binary links; `./check C15` reports INFRA until replaced).
+//! C15 — diagnostics name the file and line of the offending construct.
+//!
+//! Planted-fault search: a valid 1-3 file project is built from line-oriented pieces (so the line of every
+//! piece is known by construction), text shapes (long / non-ASCII comments, non-ASCII and multi-line string
+//! literals, CRLF, tabs, blank-line runs, trailing whitespace, multi-line constructs) are inserted at generated
+//! places, and ONE single-line local error is planted at a chosen (file, line, context). Oracle: the project is
+//! rejected and the first returned error carries the planted file and line (duplicates: either definition).
 use arbitrary::Unstructured;
-use vcore::{Check, Labels, Plan, Tier, Verdict};
+use serde::{Deserialize, Serialize};
+use std::collections::{BTreeMap, BTreeSet};
+use vcore::{compile, Check, ErrInfo, Labels, Outcome, Project, Stats, Step, Tape, Tier, Verdict};
 
-pub struct Stub;
-pub const CHECK: Stub = Stub;
-pub fn plan(_t: Tier) -> Plan {
-    Plan::new(1, 16)
+#[path = "c15_gen.rs"]
+mod gen;
+
+pub struct C15;
+pub const CHECK: C15 = C15;
+pub fn plan(t: Tier) -> vcore::Plan {
+    vcore::Plan::new(t.pick(4_000, 80_000), 1600)
 }
-impl Check for Stub {
-    type Case = u8;
+
+/// text-shape classes (a shape piece / statement belongs to exactly one; crlf, tabs and trailing-ws are flags)
+pub const SHAPE_CLASSES: [&str; 9] = [
+    "multiline-string",
+    "string-nonascii",
+    "comment-nonascii",
+    "comment-long",
+    "multiline-construct",
+    "blank-run",
+    "crlf",
+    "tabs",
+    "trailing-ws",
+];
+/// kinds of planted local errors; the last two are classified apart because their reported location has a
+/// cause of its own (see `rule()`)
+pub const KINDS: [&str; 11] = [
+    "syntax",
+    "unresolved",
+    "duplicate",
+    "const-assign",
+    "operator",
+    "argument",
+    "annotation",
+    "break",
+    "conflict-marker",
+    "outer-stmt",
+    "syntax-eof",
+];
+
+/// one statement of a function body; `lines` carry indentation relative to the body level
+#[derive(Clone, Serialize, Deserialize, Default, Debug, PartialEq)]
+pub struct Stmt {
+    pub lines: Vec<String>,
+    #[serde(default)]
+    pub refs: Vec<String>,
+    #[serde(default)]
+    pub shape: Option<String>,
+}
+
+/// one top-level piece of a file: `head` lines, then (functions only) body statements, then `tail` lines
+#[derive(Clone, Serialize, Deserialize, Default, Debug, PartialEq)]
+pub struct Piece {
+    /// import | global | fn | blob | enum | start | shape
+    pub role: String,
+    pub head: Vec<String>,
+    #[serde(default)]
+    pub body: Vec<Stmt>,
+    #[serde(default)]
+    pub tail: Vec<String>,
+    /// top-level names this piece defines, with the offset of the defining line inside `head`
+    #[serde(default)]
+    pub defines: Vec<(String, usize)>,
+    /// names (of other pieces / files) this piece's head needs
+    #[serde(default)]
+    pub refs: Vec<String>,
+    #[serde(default)]
+    pub shape: Option<String>,
+    #[serde(default)]
+    pub crlf: bool,
+    #[serde(default)]
+    pub tabs: bool,
+    #[serde(default)]
+    pub trail: String,
+}
+
+#[derive(Clone, Serialize, Deserialize, Default, Debug, PartialEq)]
+pub struct FileSpec {
+    /// "/p/main.sy", "/p/other.sy", "/p/sub/inner.sy"
+    pub path: String,
+    pub pieces: Vec<Piece>,
+}
+
+/// a block wrapped around the planted line; `open`/`close` lines are indented relative to the wrapper
+#[derive(Clone, Serialize, Deserialize, Default, Debug, PartialEq)]
+pub struct Wrap {
+    pub kind: String,
+    pub open: Vec<String>,
+    pub close: Vec<String>,
+    /// indentation levels between the wrapper and what it encloses (1; case arms: 2)
+    pub inner: usize,
+}
+
+#[derive(Clone, Serialize, Deserialize, Default, Debug, PartialEq)]
+pub struct Plant {
+    pub kind: String,
+    pub spelling: String,
+    pub file: usize,
+    /// `stmt == None`: the plant block is inserted at top level *before* piece `piece` (== len: at the end);
+    /// `stmt == Some(k)`: inside function piece `piece`, before body statement `k`
+    pub piece: usize,
+    pub stmt: Option<usize>,
+    /// helper lines before the wrappers (e.g. the constant / the annotated function the plant refers to)
+    #[serde(default)]
+    pub setup: Vec<String>,
+    #[serde(default)]
+    pub wraps: Vec<Wrap>,
+    /// helper lines directly before the planted line, at its level
+    #[serde(default)]
+    pub setup_inner: Vec<String>,
+    /// the offending line (without indentation)
+    pub line: String,
+    /// appended to the offending line (whitespace / a comment)
+    #[serde(default)]
+    pub trailer: String,
+    #[serde(default)]
+    pub crlf: bool,
+    #[serde(default)]
+    pub tabs: bool,
+    /// conflict markers must start their line
+    #[serde(default)]
+    pub unindented: bool,
+    /// duplicate definitions: the name whose other definition's line is accepted too
+    #[serde(default)]
+    pub dup_of: Option<String>,
+    /// the planted line is the last line of the file and has no line terminator
+    #[serde(default)]
+    pub no_final_newline: bool,
+    /// names the plant needs (its call target, constant, namespace ...)
+    #[serde(default)]
+    pub refs: Vec<String>,
+}
+
+#[derive(Clone, Serialize, Deserialize, Default, Debug, PartialEq)]
+pub struct Case {
+    /// files[0] is the main file
+    pub files: Vec<FileSpec>,
+    pub plant: Plant,
+    /// generator switch: the two kinds with reported findings were avoided for this case
+    #[serde(default)]
+    pub avoid_known: bool,
+}
+
+// ------------------------------------------------------------------------------------------------
+// rendering
+// ------------------------------------------------------------------------------------------------
+
+#[derive(Clone, Copy, PartialEq)]
+pub enum Mode {
+    Planted,
+    /// the planted line replaced by a harmless definition: must compile
+    Twin,
+}
+
+pub struct Rendered {
+    pub project: Project,
+    pub exp_file: String,
+    pub exp_line: usize,
+    /// other acceptable lines in the same file (the other definition of a duplicated name)
+    pub alt_lines: Vec<usize>,
+    /// shape classes (and `nonascii-any`) seen in the planted file before the planted line
+    pub before: BTreeSet<String>,
+    pub ok: bool,
+}
+
+struct Emit {
+    text: String,
+    lines: usize,
+    before: BTreeSet<String>,
+    track: bool,
+}
+
+fn tabify(line: &str) -> String {
+    let n = line.chars().take_while(|c| *c == ' ').count();
+    let mut s = String::new();
+    for _ in 0..n / 4 {
+        s.push('\t');
+    }
+    for _ in 0..n % 4 {
+        s.push(' ');
+    }
+    s.push_str(&line[n..]);
+    s
+}
+
+impl Emit {
+    fn line(&mut self, raw: &str, level: usize, tabs: bool, trail: &str, term: &str) {
+        debug_assert!(!raw.contains('\n'));
+        let mut l = String::with_capacity(raw.len() + level * 4 + trail.len());
+        for _ in 0..level {
+            l.push_str("    ");
+        }
+        l.push_str(raw);
+        if tabs {
+            let t = tabify(&l);
+            if self.track && t != l {
+                self.before.insert("tabs".into());
+            }
+            l = t;
+        }
+        l.push_str(trail);
+        if self.track {
+            if term == "\r\n" {
+                self.before.insert("crlf".into());
+            }
+            if !trail.is_empty() {
+                self.before.insert("trailing-ws".into());
+            }
+            if !l.is_ascii() {
+                self.before.insert("nonascii-any".into());
+            }
+        }
+        self.text.push_str(&l);
+        self.text.push_str(term);
+        self.lines += 1;
+    }
+}
+
+pub const TWIN_LINE: &str = "zn :: 0";
+
+pub fn render(case: &Case, mode: Mode) -> Rendered {
+    let mut files = BTreeMap::new();
+    let p = &case.plant;
+    let mut exp_line = 0usize;
+    let mut before = BTreeSet::new();
+    let mut def_lines: BTreeMap<String, usize> = BTreeMap::new();
+    let mut ok = true;
+    for (fi, f) in case.files.iter().enumerate() {
+        let here = fi == p.file;
+        let mut e = Emit { text: String::new(), lines: 0, before: BTreeSet::new(), track: here };
+        let emit_plant = |e: &mut Emit, base: usize, exp_line: &mut usize| {
+            let term = if p.crlf { "\r\n" } else { "\n" };
+            for s in &p.setup {
+                e.line(s, base, p.tabs, "", term);
+            }
+            let mut level = base;
+            let mut levels = Vec::new();
+            for w in &p.wraps {
+                levels.push(level);
+                for l in &w.open {
+                    e.line(l, level, p.tabs, "", term);
+                }
+                level += w.inner;
+            }
+            for s in &p.setup_inner {
+                e.line(s, level, p.tabs, "", term);
+            }
+            // the planted line itself
+            e.track = false;
+            *exp_line = e.lines + 1;
+            let text = if mode == Mode::Planted { p.line.as_str() } else { TWIN_LINE };
+            let lv = if p.unindented { 0 } else { level };
+            let last_term = if p.no_final_newline && mode == Mode::Planted { "" } else { term };
+            e.line(text, lv, p.tabs && !p.unindented, &p.trailer, last_term);
+            for (w, lv) in p.wraps.iter().zip(levels.iter()).rev() {
+                for l in &w.close {
+                    e.line(l, *lv, p.tabs, "", term);
+                }
+            }
+        };
+        let np = f.pieces.len();
+        for (pi, pc) in f.pieces.iter().enumerate() {
+            if here && p.stmt.is_none() && p.piece == pi {
+                emit_plant(&mut e, 0, &mut exp_line);
+            }
+            let term = if pc.crlf { "\r\n" } else { "\n" };
+            let start = e.lines;
+            if here {
+                for (n, off) in &pc.defines {
+                    def_lines.entry(n.clone()).or_insert(start + off + 1);
+                }
+            }
+            if e.track {
+                if let Some(s) = &pc.shape {
+                    e.before.insert(s.clone());
+                }
+            }
+            for l in &pc.head {
+                e.line(l, 0, pc.tabs, &pc.trail, term);
+            }
+            let nb = pc.body.len();
+            for (si, st) in pc.body.iter().enumerate() {
+                if here && p.stmt == Some(si) && p.piece == pi {
+                    emit_plant(&mut e, 1, &mut exp_line);
+                }
+                if e.track {
+                    if let Some(s) = &st.shape {
+                        e.before.insert(s.clone());
+                    }
+                }
+                for l in &st.lines {
+                    e.line(l, 1, pc.tabs, &pc.trail, term);
+                }
+            }
+            if here && p.piece == pi {
+                if let Some(k) = p.stmt {
+                    if k == nb {
+                        emit_plant(&mut e, 1, &mut exp_line);
+                    } else if k > nb {
+                        ok = false;
+                    }
+                }
+            }
+            for l in &pc.tail {
+                e.line(l, 0, pc.tabs, &pc.trail, term);
+            }
+        }
+        if here && p.stmt.is_none() && p.piece == np {
+            emit_plant(&mut e, 0, &mut exp_line);
+        }
+        if here {
+            if p.piece > np || (p.stmt.is_some() && p.piece >= np) {
+                ok = false;
+            }
+            before = e.before.clone();
+        }
+        files.insert(f.path.clone(), e.text);
+    }
+    if p.file >= case.files.len() || case.files.is_empty() {
+        ok = false;
+    }
+    let mut alt_lines = Vec::new();
+    if let Some(n) = &p.dup_of {
+        if let Some(l) = def_lines.get(n) {
+            alt_lines.push(*l);
+        }
+    }
+    let exp_file = case.files.get(p.file).map(|f| f.path.clone()).unwrap_or_default();
+    let main = case.files.first().map(|f| f.path.clone()).unwrap_or_default();
+    Rendered { project: Project { files, main, std: true, require: None }, exp_file, exp_line, alt_lines, before, ok }
+}
+
+// ------------------------------------------------------------------------------------------------
+// oracle
+// ------------------------------------------------------------------------------------------------
+
+pub enum Probe {
+    Malformed,
+    TwinRejected(String),
+    TwinPanic,
+    NotAnError,
+    Panic(String),
+    Right { first: ErrInfo, nerr: usize, before: BTreeSet<String>, exp_line: usize },
+    Wrong { first: ErrInfo, nerr: usize, exp_file: String, exp_line: usize, alt_lines: Vec<usize>, source: String },
+}
+
+pub fn probe(case: &Case) -> Probe {
+    let tw = render(case, Mode::Twin);
+    if !tw.ok {
+        return Probe::Malformed;
+    }
+    match compile(&tw.project) {
+        Outcome::Accepted(_) => {}
+        Outcome::Rejected { errors, .. } => {
+            let e = &errors[0];
+            return Probe::TwinRejected(format!(
+                "{}:{} {}:{} {}",
+                e.kind,
+                e.sub,
+                e.file.clone().unwrap_or_default(),
+                e.line,
+                vcore::first_line(&e.message)
+            ));
+        }
+        Outcome::Panicked { .. } => return Probe::TwinPanic,
+    }
+    let r = render(case, Mode::Planted);
+    match compile(&r.project) {
+        Outcome::Accepted(_) => Probe::NotAnError,
+        Outcome::Panicked { location, .. } => Probe::Panic(location),
+        Outcome::Rejected { errors, .. } => {
+            let first = errors[0].clone();
+            let file_ok = first.file.as_deref() == Some(r.exp_file.as_str());
+            let line_ok = first.line == r.exp_line || r.alt_lines.contains(&first.line);
+            if file_ok && line_ok {
+                Probe::Right { first, nerr: errors.len(), before: r.before, exp_line: r.exp_line }
+            } else {
+                let source = r.project.files.get(&r.exp_file).cloned().unwrap_or_default();
+                Probe::Wrong { first, nerr: errors.len(), exp_file: r.exp_file, exp_line: r.exp_line, alt_lines: r.alt_lines, source }
+            }
+        }
+    }
+}
+
+fn is_wrong(case: &Case) -> bool {
+    matches!(probe(case), Probe::Wrong { .. })
+}
+
+/// keep only the pieces / statements for which the predicates hold, re-computing the plant position.
+/// None when the piece holding the plant would go.
+pub fn retain(case: &Case, keep_piece: &dyn Fn(usize, usize, &Piece) -> bool, keep_stmt: &dyn Fn(usize, usize, usize, &Stmt) -> bool) -> Option<Case> {
+    let mut out = case.clone();
+    let p = &case.plant;
+    let mut new_piece = p.piece;
+    let mut new_stmt = p.stmt;
+    for (fi, f) in case.files.iter().enumerate() {
+        let mut pieces = Vec::new();
+        for (pi, pc) in f.pieces.iter().enumerate() {
+            let holds_plant = fi == p.file && p.stmt.is_some() && p.piece == pi;
+            if !keep_piece(fi, pi, pc) {
+                if holds_plant {
+                    return None;
+                }
+                if fi == p.file && pi < p.piece {
+                    new_piece -= 1;
+                }
+                continue;
+            }
+            let mut pc2 = pc.clone();
+            pc2.body.clear();
+            for (si, st) in pc.body.iter().enumerate() {
+                if keep_stmt(fi, pi, si, st) {
+                    pc2.body.push(st.clone());
+                } else if holds_plant {
+                    if let (Some(k), Some(ns)) = (p.stmt, new_stmt.as_mut()) {
+                        if si < k {
+                            *ns -= 1;
+                        }
+                    }
+                }
+            }
+            pieces.push(pc2);
+        }
+        out.files[fi].pieces = pieces;
+    }
+    out.plant.piece = new_piece;
+    out.plant.stmt = new_stmt;
+    Some(out)
+}
+
+/// remove the text shapes of one class (None: all of them, including the flags on the planted line)
+pub fn strip_shapes(case: &Case, class: Option<&str>) -> Case {
+    let hit = |s: &Option<String>| match (s, class) {
+        (Some(_), None) => true,
+        (Some(s), Some(c)) => s == c,
+        _ => false,
+    };
+    let mut out = retain(case, &|_, _, pc| !hit(&pc.shape), &|_, _, _, st| !hit(&st.shape)).unwrap_or_else(|| case.clone());
+    let all = class.is_none();
+    for f in out.files.iter_mut() {
+        for pc in f.pieces.iter_mut() {
+            if all || class == Some("crlf") {
+                pc.crlf = false;
+            }
+            if all || class == Some("tabs") {
+                pc.tabs = false;
+            }
+            if all || class == Some("trailing-ws") {
+                pc.trail.clear();
+            }
+        }
+    }
+    if all || class == Some("crlf") {
+        out.plant.crlf = false;
+    }
+    if all || class == Some("tabs") {
+        out.plant.tabs = false;
+    }
+    if all {
+        out.plant.trailer.clear();
+    }
+    out
+}
+
+/// which preceding text shape a wrong location depends on: `any-text` when it is wrong without any shape
+fn blame(case: &Case, before: &BTreeSet<String>) -> String {
+    if is_wrong(&strip_shapes(case, None)) {
+        return "any-text".into();
+    }
+    for c in SHAPE_CLASSES.iter() {
+        if !before.contains(*c) {
+            continue;
+        }
+        if !is_wrong(&strip_shapes(case, Some(c))) {
+            return format!("after-{}", c);
+        }
+    }
+    // shapes after the planted line or in other files, or only a combination
+    for c in SHAPE_CLASSES.iter() {
+        if !is_wrong(&strip_shapes(case, Some(c))) {
+            return format!("with-{}", c);
+        }
+    }
+    "shape-combination".into()
+}
+
+fn numbered(src: &str, around: &[usize]) -> String {
+    let lo = around.iter().copied().filter(|l| *l > 0).min().unwrap_or(1).saturating_sub(3).max(1);
+    let hi = around.iter().copied().max().unwrap_or(1) + 2;
+    let mut s = String::new();
+    for (i, l) in src.split('\n').enumerate() {
+        let n = i + 1;
+        if n >= lo && n <= hi {
+            let mark = if around.first() == Some(&n) { ">>" } else { "  " };
+            s.push_str(&format!("{} {:4} | {}\n", mark, n, l.trim_end_matches('\r')));
+        }
+    }
+    s
+}
+
+fn ctx_label(p: &Plant) -> String {
+    match p.wraps.last() {
+        Some(w) => w.kind.clone(),
+        None => {
+            if p.stmt.is_some() {
+                "fn-body".into()
+            } else {
+                "top".into()
+            }
+        }
+    }
+}
+
+impl Check for C15 {
+    type Case = Case;
     fn id(&self) -> &'static str {
         "C15"
     }
-    fn generate(&self, _u: &mut Unstructured, _tier: Tier) -> Option<u8> {
-        None
+
+    fn generate(&self, u: &mut Unstructured, tier: Tier) -> Option<Case> {
+        let mut t = Tape::new(u);
+        Some(gen::generate(&mut t, tier))
     }
-    fn evaluate(&self, _case: &u8, _labels: &mut Labels) -> Verdict {
-        Verdict::Discard("stub".into())
+
+    fn evaluate(&self, case: &Case, labels: &mut Labels) -> Verdict {
+        let p = &case.plant;
+        let fclass = if p.file == 0 { "main" } else { "imported" };
+        labels.add(format!("kind:{}", p.kind));
+        labels.add(format!("spelling:{}/{}", p.kind, p.spelling));
+        labels.add(format!("file:{}", fclass));
+        labels.add(format!("ctx:{}", ctx_label(p)));
+        labels.add(format!("depth:{}", p.wraps.len()));
+        labels.add(format!("files:{}", case.files.len()));
+        if case.avoid_known {
+            labels.add("switch:avoid-known");
+        }
+        match probe(case) {
+            Probe::Malformed => Verdict::Discard("malformed-case".into()),
+            Probe::TwinRejected(_) => Verdict::Discard("twin-rejected".into()),
+            Probe::TwinPanic => Verdict::Discard("twin-panic".into()),
+            Probe::NotAnError => {
+                labels.add(format!("not-an-error:{}/{}", p.kind, p.spelling));
+                Verdict::Discard("plant-not-an-error".into())
+            }
+            Probe::Panic(_) => Verdict::Discard("panic".into()),
+            Probe::Right { first, nerr, before, exp_line } => {
+                for s in before.iter() {
+                    labels.add(format!("shape:{}", s));
+                }
+                if before.iter().all(|s| s == "nonascii-any") {
+                    labels.add("shape:none");
+                }
+                labels.add(format!("first-error:{}", first.kind));
+                labels.add(if nerr == 1 { "errors:1" } else { "errors:2+" });
+                labels.add(format!("planted-line:{}", if exp_line <= 10 { "1-10" } else if exp_line <= 40 { "11-40" } else { "41+" }));
+                if p.crlf {
+                    labels.add("planted-line-crlf");
+                }
+                if p.dup_of.is_some() {
+                    labels.add(if first.line == exp_line { "duplicate:reported-at-plant" } else { "duplicate:reported-at-other-definition" });
+                }
+                let nt = p.file != 0 || before.contains("multiline-string") || before.contains("string-nonascii") || before.contains("comment-nonascii");
+                Verdict::Pass { nontrivial: nt }
+            }
+            Probe::Wrong { first, nerr, exp_file, exp_line, alt_lines, source } => {
+                let before = render(case, Mode::Planted).before;
+                let b = blame(case, &before);
+                let wrong_file = first.file.as_deref() != Some(exp_file.as_str());
+                let class = if wrong_file { "wrong-file" } else { "wrong-line" };
+                let signature = format!("C15/{}/{}/{}", class, p.kind, b);
+                let alt = if alt_lines.is_empty() { String::new() } else { format!(" (or line {} of the other definition)", alt_lines[0]) };
+                let detail = format!(
+                    "planted {} error `{}` ({}, context {}) at {}:{}{}; the first of {} reported error(s) is {}{} at {}:{} (cols {}-{}): {}\npreceding text shapes: {:?}; location depends on: {}\n--- {} ---\n{}",
+                    p.kind,
+                    p.line,
+                    p.spelling,
+                    ctx_label(p),
+                    exp_file,
+                    exp_line,
+                    alt,
+                    nerr,
+                    first.kind,
+                    if first.sub.is_empty() { String::new() } else { format!(":{}", first.sub) },
+                    first.file.clone().unwrap_or_else(|| "<no file>".into()),
+                    first.line,
+                    first.col_start,
+                    first.col_end,
+                    vcore::first_line(&first.message),
+                    before,
+                    b,
+                    exp_file,
+                    numbered(&source, &[exp_line, first.line])
+                );
+                Verdict::Violation { signature, detail }
+            }
+        }
     }
+
+    fn simplify_at(&self, case: &Case, idx: usize) -> Step<Case> {
+        simplify(case, idx)
+    }
+
+    fn sample(&self, case: &Case) -> serde_json::Value {
+        let r = render(case, Mode::Planted);
+        vcore::truncate_value(
+            serde_json::json!({
+                "kind": case.plant.kind, "spelling": case.plant.spelling, "context": ctx_label(&case.plant),
+                "planted_line_text": case.plant.line, "expected_file": r.exp_file, "expected_line": r.exp_line,
+                "shapes_before": r.before, "files": r.project.files,
+            }),
+            1800,
+        )
+    }
+
     fn rule(&self) -> String {
-        "stub".into()
+        "cases: a valid 1-3 file Sylt project (main + imported modules via `use m`, `use m as a`, `use sub/m`, `from m use x`; \
+         files made of line-oriented pieces: imports, constant/mutable globals, annotated functions with small bodies (if/elif/else, \
+         loop, closure, do-block, blob instantiation, enum + case, calls across files), blobs, enums, `start`), with text shapes \
+         inserted at generated places (long comments, non-ASCII comments, non-ASCII string literals, string literals spanning 2-4 \
+         lines as globals / locals / call arguments, multi-line blob/list/tuple/call constructs, blank-line runs, CRLF for whole \
+         files or single pieces, tab indentation, trailing whitespace), plus ONE planted single-line local error of kind syntax / \
+         unresolved (name, call, type, namespace member, from-import) / duplicate (global, function, blob, import) / const-assign \
+         (local, global, imported, function name) / operator / argument (own, imported or adjacent annotated function; type or arity; \
+         paren, arrow and prime calls) / annotation (definition and return annotations) / break / conflict-marker / outer-stmt \
+         (non-definition at top level) / syntax-eof (last line without terminator), at a generated (file, line) in context top level / \
+         function body / fresh function, wrapped in 0-3 of if, else, elif, loop, closure, do, case-arm. The planted line replaced by \
+         `zn :: 0` (legal twin) must compile, otherwise the case is discarded. oracle: the planted project is rejected (accepted => \
+         discard plant-not-an-error) and the FIRST returned error has file == planted file and line_start == planted line (1 + number \
+         of '\\n' before it); duplicates: the line of either definition. A wrong location is re-tested with the text shapes removed \
+         (all, then class by class) and the class the location depends on goes into the signature. non-trivial = planted in an \
+         imported file, or after a multi-line string, a non-ASCII string or a non-ASCII comment in the same file; distinct by hash of \
+         the case"
+            .into()
     }
-    fn health(&self, _s: &vcore::Stats) -> Result<(), String> {
-        Err("check not built yet".into())
+
+    fn assumptions(&self) -> Vec<String> {
+        vec![
+            "a line is what '\\n' terminates ('\\r\\n' counts once, a lone '\\r' never occurs in generated text); line numbers are 1-based".into(),
+            "with exactly one planted cause the first element of the returned error list is the primary diagnostic".into(),
+            "for a duplicate definition the location of either definition (same file) is accepted".into(),
+        ]
     }
+
+    fn health(&self, s: &Stats) -> Result<(), String> {
+        if s.evaluations < 1000 {
+            return Ok(());
+        }
+        let ev = s.evaluations as f64;
+        let nae = s.discard("plant-not-an-error") as f64;
+        if nae > 0.2 * ev {
+            return Err(format!("{:.0}% of the plants are not errors", 100.0 * nae / ev));
+        }
+        let tw = (s.discard("twin-rejected") + s.discard("twin-panic") + s.discard("malformed-case")) as f64;
+        if tw > 0.05 * ev {
+            return Err(format!("{:.1}% of the base projects (legal twins) do not compile", 100.0 * tw / ev));
+        }
+        // kinds behind the avoid switch are generated in 20 % of the budget only
+        for k in KINDS.iter() {
+            let need = if *k == "outer-stmt" || *k == "syntax-eof" { 3 } else { s.evaluations / 100 };
+            if s.label(&format!("kind:{}", k)) < need.max(1) {
+                return Err(format!("planted kind {} (nearly) absent: {} cases", k, s.label(&format!("kind:{}", k))));
+            }
+        }
+        for c in SHAPE_CLASSES.iter() {
+            if s.label(&format!("shape:{}", c)) < s.evaluations / 100 {
+                return Err(format!("text shape {} precedes the planted line in only {} cases", c, s.label(&format!("shape:{}", c))));
+            }
+        }
+        for f in ["file:main", "file:imported"] {
+            if s.label(f) < s.evaluations / 5 {
+                return Err(format!("{} only {} cases", f, s.label(f)));
+            }
+        }
+        for c in ["ctx:top", "ctx:fn-body", "ctx:closure", "ctx:if", "ctx:loop"] {
+            if s.label(c) < s.evaluations / 200 {
+                return Err(format!("context {} only {} cases", c, s.label(c)));
+            }
+        }
+        if (s.nontrivial as f64) < 0.4 * ev {
+            return Err(format!("only {} of {} cases are non-trivial", s.nontrivial, s.evaluations));
+        }
+        Ok(())
+    }
+}
+
+// ------------------------------------------------------------------------------------------------
+// simplification
+// ------------------------------------------------------------------------------------------------
+
+fn intersects(a: &[String], names: &BTreeSet<String>) -> bool {
+    a.iter().any(|x| names.contains(x))
+}
+
+/// drop everything that defines or needs one of `names` (transitively). None if the plant or `start` needs them.
+fn drop_names(case: &Case, seed: BTreeSet<String>, drop_file: Option<usize>) -> Option<Case> {
+    let mut names = seed;
+    let p = &case.plant;
+    let mut gone: BTreeSet<(usize, usize)> = BTreeSet::new();
+    loop {
+        let mut changed = false;
+        for (fi, f) in case.files.iter().enumerate() {
+            for (pi, pc) in f.pieces.iter().enumerate() {
+                if gone.contains(&(fi, pi)) {
+                    continue;
+                }
+                let defines_hit = pc.defines.iter().any(|(n, _)| names.contains(n));
+                if Some(fi) == drop_file || intersects(&pc.refs, &names) || defines_hit {
+                    gone.insert((fi, pi));
+                    for (n, _) in &pc.defines {
+                        if names.insert(n.clone()) {
+                            changed = true;
+                        }
+                    }
+                    changed = true;
+                }
+            }
+        }
+        if !changed {
+            break;
+        }
+    }
+    if intersects(&p.refs, &names) || p.dup_of.as_ref().map(|n| names.contains(n)).unwrap_or(false) {
+        return None;
+    }
+    for (fi, pi) in gone.iter() {
+        let pc = &case.files[*fi].pieces[*pi];
+        if *fi == 0 && pc.role == "start" {
+            return None;
+        }
+        if *fi == p.file && p.stmt.is_some() && p.piece == *pi {
+            return None;
+        }
+    }
+    let mut out = retain(case, &|fi, pi, _| !gone.contains(&(fi, pi)), &|_, _, _, st| !intersects(&st.refs, &names))?;
+    if let Some(d) = drop_file {
+        if d == 0 || d == p.file {
+            return None;
+        }
+        out.files.remove(d);
+        if out.plant.file > d {
+            out.plant.file -= 1;
+        }
+    }
+    Some(out)
+}
+
+fn simplify(case: &Case, idx: usize) -> Step<Case> {
+    let mut k = idx;
+    let cand = |c: Option<Case>| match c {
+        Some(c) if &c != case => Step::Candidate(c),
+        _ => Step::Skip,
+    };
+    // A: all text shapes at once, then class by class
+    if k == 0 {
+        return cand(Some(strip_shapes(case, None)));
+    }
+    k -= 1;
+    if k < SHAPE_CLASSES.len() {
+        return cand(Some(strip_shapes(case, Some(SHAPE_CLASSES[k]))));
+    }
+    k -= SHAPE_CLASSES.len();
+    // B: whole files
+    if k < case.files.len() {
+        if k == 0 || k == case.plant.file {
+            return Step::Skip;
+        }
+        let key = format!("file:{}", case.files[k].path);
+        let mut seed = BTreeSet::new();
+        seed.insert(key);
+        return cand(drop_names(case, seed, Some(k)));
+    }
+    k -= case.files.len();
+    // C: single pieces (with what depends on them)
+    for (fi, f) in case.files.iter().enumerate() {
+        if k < f.pieces.len() {
+            let pc = &f.pieces[k];
+            if (fi == 0 && pc.role == "start") || (fi == case.plant.file && case.plant.stmt.is_some() && case.plant.piece == k) {
+                return Step::Skip;
+            }
+            if pc.defines.is_empty() {
+                return cand(retain(case, &|a, b, _| !(a == fi && b == k), &|_, _, _, _| true));
+            }
+            let seed: BTreeSet<String> = pc.defines.iter().map(|(n, _)| n.clone()).collect();
+            return cand(drop_names(case, seed, None));
+        }
+        k -= f.pieces.len();
+    }
+    // D: single body statements
+    for (fi, f) in case.files.iter().enumerate() {
+        for (pi, pc) in f.pieces.iter().enumerate() {
+            if k < pc.body.len() {
+                return cand(retain(case, &|_, _, _| true, &|a, b, c, _| !(a == fi && b == pi && c == k)));
+            }
+            k -= pc.body.len();
+        }
+    }
+    // E: the plant's own decoration
+    let p = &case.plant;
+    if k < p.wraps.len() {
+        // a fresh function at top level must stay when the planted line is a statement
+        if p.wraps[k].kind == "fresh-fn" {
+            return Step::Skip;
+        }
+        let mut c = case.clone();
+        c.plant.wraps.remove(k);
+        return Step::Candidate(c);
+    }
+    k -= p.wraps.len();
+    let mut c = case.clone();
+    match k {
+        0 => c.plant.trailer.clear(),
+        1 => c.plant.crlf = false,
+        2 => c.plant.tabs = false,
+        3 => {
+            // move the plant to the start of its function body / of the file
+            match c.plant.stmt.as_mut() {
+                Some(s) => *s = 0,
+                None => c.plant.piece = 0,
+            }
+        }
+        4 => {
+            for f in c.files.iter_mut() {
+                for pc in f.pieces.iter_mut() {
+                    pc.crlf = false;
+                    pc.tabs = false;
+                    pc.trail.clear();
+                }
+            }
+        }
+        _ => return Step::End,
+    }
+    cand(Some(c))
 }
